@@ -43,6 +43,9 @@ type C10Case struct {
 	// InboundMTU, 1600 by default); a frame that does not fit must still be consumed whole, its
 	// head must be what is copied, and the returned length must show that it did not fit
 	Buf int `json:"buf,omitempty"`
+	// EmptyAt: before delivering chunk i the connection returns (0, nil) once - "nothing happened",
+	// a legal io.Reader result that in-memory pipes produce for zero-length writes
+	EmptyAt []int `json:"empty_at,omitempty"`
 	// bind part
 	Reply    string `json:"reply,omitempty"` // success | error | indication | notstun | badattr
 	Trailing int    `json:"trailing,omitempty"`
@@ -70,6 +73,7 @@ func (f *Frame) bytes() []byte {
 
 type chunkConn struct {
 	errAt     map[int]bool
+	emptyAt   map[int]bool
 	chunks    [][]byte
 	idx       int
 	delivered int
@@ -91,6 +95,11 @@ func (c *chunkConn) Read(b []byte) (int, error) {
 		delete(c.errAt, c.idx)
 
 		return 0, errTransient
+	}
+	if c.emptyAt[c.idx] {
+		delete(c.emptyAt, c.idx)
+
+		return 0, nil
 	}
 	ch := c.chunks[c.idx]
 	n := copy(b, ch)
@@ -187,9 +196,12 @@ func runFrames(c *C10Case) (string, string) { //nolint:cyclop
 	tail, _ := hex.DecodeString(c.Tail)
 	framesLen := len(stream)
 	stream = append(stream, tail...)
-	conn := &chunkConn{chunks: split(append([]byte{}, stream...), c.Cuts), errAt: map[int]bool{}}
+	conn := &chunkConn{chunks: split(append([]byte{}, stream...), c.Cuts), errAt: map[int]bool{}, emptyAt: map[int]bool{}}
 	for _, e := range c.ErrAt {
 		conn.errAt[e] = true
+	}
+	for _, e := range c.EmptyAt {
+		conn.emptyAt[e] = true
 	}
 	sc := proto.NewSTUNConn(conn)
 	buf := make([]byte, c10Buf)
@@ -474,6 +486,11 @@ func genC10(rt *rapid.T) *C10Case {
 	c.Cuts = genCuts(rt, total)
 	if rapid.IntRange(0, 3).Draw(rt, "shortBuffer") == 0 {
 		c.Buf = rapid.SampledFrom([]int{24, 64, 100, 512, 1500, 1600, 1600, 4096}).Draw(rt, "buf")
+	}
+	if len(c.Cuts) < 64 && rapid.IntRange(0, 3).Draw(rt, "emptyReads") == 0 {
+		for k := rapid.IntRange(1, 3).Draw(rt, "nempty"); k > 0; k-- {
+			c.EmptyAt = append(c.EmptyAt, rapid.IntRange(0, len(c.Cuts)).Draw(rt, "emptyAt"))
+		}
 	}
 	if len(c.Cuts) > 0 && len(c.Cuts) < 64 && rapid.IntRange(0, 3).Draw(rt, "readErrors") == 0 {
 		for k := rapid.IntRange(1, 3).Draw(rt, "nerr"); k > 0; k-- {
